@@ -197,6 +197,8 @@ def run_case(case):
     gs0 = None
     if case["kind"] == "rec":
         spec = c01.gen_spec(dict(spec_seed=case["spec_seed"], small=True))
+        if case.get("tie"):
+            spec = S.rand_spec(case["spec_seed"], zero_bias=1.0, n_min=3, n_max=4, p_fwd_skip=0.0)
         n_eps = rnd.choice([2, 3])
         lengths = [rnd.randint(4, 7) + 3 * i for i in range(n_eps)]
         rnd.shuffle(lengths)
@@ -227,6 +229,8 @@ def run_case(case):
     pairs = rnd.sample([(m, p) for m in ("mcs", "gen", "top") for p in (True, False)], 2)
     if spec.get("fast_ratio"):
         pairs[0] = (rnd.choice(["gen", "top"]), pairs[0][1])
+    if case.get("tie"):
+        pairs = [("mcs", False), (rnd.choice(["gen", "top"]), False)]
     S_prev = None
     for mode, prune in pairs:
         kw = {}
@@ -285,5 +289,6 @@ def run_case(case):
 def plan(tier, seed):
     nr, ng = (14, 14) if tier == "quick" else (300, 300)
     cases = [dict(name=f"rec-{i}", kind="rec", spec_seed=seed * 100109 + i, timeout=600) for i in range(nr)]
+    cases += [dict(name=f"tie-{i}", kind="rec", tie=True, spec_seed=seed * 100109 + 6000 + i, timeout=600) for i in range(6 if tier == "quick" else 60)]
     cases += [dict(name=f"gen-{i}", kind="gen", spec_seed=seed * 100109 + 3000 + i, timeout=600) for i in range(ng)]
     return cases
